@@ -1447,7 +1447,7 @@ class AgProtocol(utils.EventEmitter):
             )
         )
         self.send_ok()
-        self._remained_slc_setup_features.remove(HfFeature.THREE_WAY_CALLING)
+        self._remained_slc_setup_features.discard(HfFeature.THREE_WAY_CALLING)
         self._check_remained_slc_commands()
 
     def _on_cind_test(self) -> None:
@@ -1544,7 +1544,7 @@ class AgProtocol(utils.EventEmitter):
 
         self.send_ok()
 
-        self._remained_slc_setup_features.remove(HfFeature.HF_INDICATORS)
+        self._remained_slc_setup_features.discard(HfFeature.HF_INDICATORS)
         self._check_remained_slc_commands()
 
     def _on_biev(self, index_bytes: bytes, value_bytes: bytes) -> None:
